@@ -247,10 +247,15 @@ func findGen(w *bufio.Writer, args map[string]string) {
 	// the eight kinds of the reconnaissance run: empty, before, after, both, spokfile, spokfile+before, dir, dir+after
 	eight := []int{0, 1, 2, 3, 4, 5, 8, 10}
 	// exhaustive in both tiers (the property's space is finite): every chain of depth <= 4
+	// (quick: 4-level chains over the eight reconnaissance kinds; thorough: over all twelve)
 	for n := 1; n <= 3; n++ {
 		genChains(w, n, all)
 	}
-	genChains(w, 4, eight)
+	if args["tier"] == "thorough" {
+		genChains(w, 4, all) // 12^4 chains x 4 starts x 9 stops
+	} else {
+		genChains(w, 4, eight)
+	}
 }
 
 func main() {
